@@ -9,9 +9,9 @@ CONSTANTS
   U64 = 1073741824
   EPOCH0 <- c_EPOCH0
   TICKID = "minute"
-  DEVS = {}
-  PREFIXES <- c_PREFIX_W
-  EVENTS = {"CreateTask", "Submit", "Challenge", "Tick"}
+  DEVS <- c_DEVS_GEN
+  PREFIXES <- c_PREFIX_COV2
+  EVENTS = {"Submit", "Challenge", "Tick"}
   A_AVS = {"a1"}
   A_T = {"t1"}
   MINSELFS = {0}
@@ -20,24 +20,24 @@ CONSTANTS
   UNBONDS = {5}
   CALLERS = {"w1"}
   NAMES = {"n1"}
-  A_OPS = {"o1", "o3"}
+  A_OPS = {"o1", "u1"}
   BLSCLS = {"good"}
-  P_RESP = {0, 1, 2}
-  P_STAT = {0, 1, 2}
-  P_CHAL = {0, 1, 2}
+  P_RESP = {0, 1}
+  P_STAT = {0, 1}
+  P_CHAL = {0, 1}
   STAGES = {"1", "2"}
-  SIGS = {"g1", "g2", "g3", "x1", "empty", "nil", "junk"}
-  RESPS = {"nil", "r1", "r2", "rw", "rj"}
+  SIGS = {"g2", "empty"}
+  RESPS = {"nil", "r1", "rw"}
   IDS = {1}
   HASHC = {"good", "bad"}
-  FOREIGN = TRUE
+  FOREIGN = FALSE
   MAXTASKS = 1
-  MAXEPOCH = 10
-  MAXOPS = 28
+  MAXEPOCH = 9
+  MAXOPS = 22
   FAILBUDGET = 99
   ONCEPERERR = FALSE
   TICKW = 1
-  COVER = FALSE
+  COVER = TRUE
 VIEW View
-INVARIANTS NoTags
+ACTION_CONSTRAINTS CoverEdge
 CHECK_DEADLOCK FALSE
